@@ -87,7 +87,8 @@ Inductive dbop :=
 | OSetLanguage (l : option bytes)
 | OSetLock (p : N) (lk : bool)
 | ODump (k : bytes)          (* Dump + Next until exhausted *)
-| OPaths (k : bytes).        (* verification hook VerifPaths (fs) *)
+| OPaths (k : bytes)         (* verification hook VerifPaths (fs) *)
+| ODecode (k : bytes).       (* DecodeKey of a storage key (no store access) *)
 
 Inductive dbres :=
 | DOk                                  (* nil error, no value *)
@@ -283,6 +284,43 @@ Fixpoint fs_dump_first (bin : bool) (st : dbstate) (pk : bytes) (names : list by
 Definition fs_dump (bin : bool) (st : dbstate) (k : bytes) : dbres :=
   fs_dump_first bin st (b_pfx (d_base st) :: k) (fs_readdir st).
 
+(* ---- pg: Dump (db/postgres/dump.go) ------------------------------------------------------------ *)
+(* SELECT key, value ... WHERE key >= k, in bytewise key order (BYTEA comparison) *)
+Definition pg_rows_from (st : dbstate) (k : bytes) : list (bytes * bytes) :=
+  filter (fun kv => bytes_leb k (fst kv)) (asort (d_store st)).
+(* dumpFunc: a row whose raw key does not begin with the lower bound k (itBase) ends the listing;
+   every other row is decoded, and the listing also stops at the first row that does not decode *)
+Fixpoint pg_dump_rest (b : base) (k : bytes) (rows : list (bytes * bytes)) : list (bytes * bytes) :=
+  match rows with
+  | [] => []
+  | (rk, v) :: r =>
+    if is_prefix k rk then
+      match decode_key b rk with
+      | Ok kk => (kk, v) :: pg_dump_rest b k r
+      | _ => []
+      end
+    else []
+  end.
+(* Dump: SetLanguage(nil) on the handle, ToKey, the default storage key k is the lower bound and the
+   prefix every listed row must have; a first row without it => not found; the first row is decoded
+   (error => generic error) and handed to WithFirst.
+   b is the context AFTER the language has been cleared. *)
+Definition pg_dump (st : dbstate) (b : base) (key : bytes) : dbres :=
+  match to_key b key with
+  | Ok lk =>
+    let k := lk_default lk in
+    match pg_rows_from st k with
+    | [] => DErr ENotFound
+    | (rk, v) :: r =>
+      if negb (is_prefix k rk) then DErr ENotFound else
+      match decode_key b rk with
+      | Ok kk => DDump ((kk, v) :: pg_dump_rest b k r)
+      | _ => DErr EGen
+      end
+    end
+  | _ => DErr EGen
+  end.
+
 (* ---- one operation on one backend ---------------------------------------------------------- *)
 Definition lock_res (ok : bool) : dbres := if ok then DOk else DErr EGen.
 
@@ -305,13 +343,21 @@ Definition db_step (be : backend) (st : dbstate) (o : dbop) : dbstate * dbres :=
          | BFs bin => fs_get bin st k
          end)
   | ODump k =>
-    (st, match be with
-         | BMem => DErr EGen       (* "unimplemented" *)
-         | BPg => DSkip            (* db/postgres/dump.go is not part of this model *)
-         | BFs bin => fs_dump bin st k
-         end)
+    match be with
+    | BMem => (st, DErr EGen)       (* "unimplemented" *)
+    | BPg => let b := set_language (d_base st) None in (with_base st b, pg_dump st b k)
+    | BFs bin => (st, fs_dump bin st k)
+    end
   | OPaths k =>
     (st, match be with BFs bin => fs_paths bin st k | _ => DSkip end)
+  | ODecode k =>
+    (st, match match be with
+               | BFs bin => fs_decode_key bin (d_base st) k
+               | _ => match decode_key (d_base st) k with Ok kk => Some kk | _ => None end
+               end with
+         | Some kk => DVal kk
+         | None => DErr EGen
+         end)
   end.
 
 Fixpoint db_run (be : backend) (st : dbstate) (ops : list dbop) : dbstate * list dbres :=
@@ -392,7 +438,7 @@ Definition spec_step (sp : spec) (o : dbop) : spec * dbres :=
   | OPut k v => spec_put sp k v
   | OGet k => (sp, spec_get sp k)
   | ODump k => (sp, spec_dump sp k)
-  | OPaths _ => (sp, DSkip)
+  | OPaths _ | ODecode _ => (sp, DSkip)
   end.
 Fixpoint spec_run (sp : spec) (ops : list dbop) : spec * list dbres :=
   match ops with
@@ -416,7 +462,7 @@ Definition op_ok (b : base) (o : dbop) : bool :=
   | OSetSession s => dot_free s
   | OSetLanguage (Some c) => len c =? 3
   | OPut k _ | OGet k => key_ok b k
-  | ODump _ | OPaths _ => false
+  | ODump _ | OPaths _ | ODecode _ => false
   | _ => true
   end.
 Fixpoint hist_ok (sp : spec) (ops : list dbop) : bool :=
@@ -455,7 +501,7 @@ Definition fs_op_ok (bin : bool) (b : base) (o : dbop) : bool :=
   | OSetLanguage (Some c) => len c =? 3
   | OPut k _ | OGet k =>
     (if bin then bytes_ok k else true) && key_ok b (if bin then b64_enc k else k) && fs_key_ok bin b k
-  | ODump _ | OPaths _ => false
+  | ODump _ | OPaths _ | ODecode _ => false
   | _ => true
   end.
 Fixpoint fs_hist_ok (bin : bool) (sp : spec) (ops : list dbop) : bool :=
